@@ -20,6 +20,7 @@ REQUIRED_COUNTERS = ["episodes", "c09_transitions", "c09_exhaustive_moves", "c09
 MIN_NONTRIVIAL = {"quick": 30000, "thorough": 300000}
 WORKERS = {"quick": 14, "thorough": 16}
 BUDGET_S = {"quick": 500, "thorough": 3000}
+THOROUGH_ROUNDS = 4
 
 
 def cases(tier, seed):
